@@ -63,6 +63,12 @@ fn judge<'a, T: DiffableStr + ?Sized + 'a>(d: &'a TextDiff<'a, 'a, 'a, T>, opt: 
                     plain_seg = true;
                 }
             }
+            // the lossy string view is the same segments, decoded
+            let lossy: Vec<(bool, String)> = ic.iter_strings_lossy().map(|(e, s)| (e, s.into_owned())).collect();
+            let want_lossy: Vec<(bool, String)> = ic.values().iter().map(|(e, seg)| (*e, String::from_utf8_lossy(seg.as_bytes()).into_owned())).collect();
+            if lossy != want_lossy {
+                return Err(format!("{:?}: iter_strings_lossy() gives {:?}, the segments are {:?}", op, lossy, want_lossy));
+            }
             if cat != line {
                 return Err(format!("{:?}: inline segments concatenate to {:?}, the line is {:?}", op, escape_bytes(&cat), escape_bytes(line)));
             }
